@@ -10,6 +10,7 @@ package dtls
 // must succeed.
 
 import (
+	"net"
 	"bytes"
 	"crypto"
 	"crypto/ecdsa"
@@ -702,6 +703,68 @@ func vfC03ResumeBypass(t *testing.T, res *vfResult, pol ClientAuthType, ems bool
 	synctest.Wait()
 }
 
+// vfC03ResumeOtherName: a client with a session store verifies the server for one name, then connects to the same
+// transport address configured with ANOTHER name the server's certificate is not valid for. Whatever the session
+// machinery does, the second connection may only be established if the peer is authenticated for the second name:
+// a session stored for the first name must not be resumed in its place.
+func vfC03ResumeOtherName(t *testing.T, res *vfResult, first, second string) {
+	pki := vfGetPKI()
+	res.Eval(1)
+	id := fmt.Sprintf("resume-other-name/first=%s/second=%s", first, second)
+	cS, sS := vfNewMemStore("c"), vfNewMemStore("s")
+	leaf := pki.Leaf("ecdsa", "server")
+	if net.ParseIP(first) != nil {
+		leaf = pki.Leaf("ecdsa", "server-ip") // valid for 192.0.2.7 and 2001:db8::7 only
+	}
+	mk := func(name string) ([]ClientOption, []ServerOption) {
+		co := vfCO(append(vfV12(), WithRootCAs(pki.Pool), WithServerName(name), WithSessionStore(cS))...)
+		so := append(vfSO(append(vfV12(), WithCertificates(leaf), WithSessionStore(sS))...), WithInsecureSkipVerifyHello(true))
+
+		return co, so
+	}
+	co, so := mk(first)
+	p, err := vfNewPair(vfNewNet(), co, so)
+	if err != nil {
+		res.Count("config_rejected", 1)
+
+		return
+	}
+	ce, se := p.Handshake(30 * time.Second)
+	p.Close()
+	synctest.Wait()
+	if ce != nil || se != nil {
+		res.Violate("C03:positive-control-failed:resume-other-name:first-connection", fmt.Sprintf("%s: client=%v server=%v", id, ce, se), map[string]any{"row": id})
+
+		return
+	}
+	co, so = mk(second)
+	n := vfNewNet()
+	p2, err := vfNewPair(n, co, so)
+	if err != nil {
+		res.Count("config_rejected", 1)
+
+		return
+	}
+	ce, se = p2.Handshake(30 * time.Second)
+	res.NonTrivial(id)
+	res.Count("resume_other_name_attempts", 1)
+	abbreviated := true
+	for _, w := range n.Emissions("s") {
+		if strings.Contains(vfKind(w.Data), "ServerHelloDone") {
+			abbreviated = false
+		}
+	}
+	if ce == nil {
+		res.Violate("C03:accepted-without-credential:v12:rogue-s:session-of-another-server-name",
+			fmt.Sprintf("%s: the client, now configured with a server name the peer's certificate is not valid for, reported an established connection (abbreviated=%v): the session verified for the first name stood in for the missing credential",
+				id, abbreviated), map[string]any{"row": id})
+	} else {
+		res.Count("rejected_as_required", 1)
+	}
+	p2.Close()
+	synctest.Wait()
+}
+
 func TestVF_C03(t *testing.T) {
 	vfGetPKI()
 	vfInstallFilter()
@@ -725,6 +788,8 @@ func TestVF_C03(t *testing.T) {
 		rbs = append(rbs, rb{pol, true}, rb{pol, false})
 	}
 	vfBubbles(t, len(rbs), func(t *testing.T, i int) { vfC03ResumeBypass(t, res, rbs[i].pol, rbs[i].ems) })
+	names := [][2]string{{vfServerName, "other.example"}, {"192.0.2.7", "192.0.2.8"}, {"2001:db8::7", "2001:db8::8"}, {"192.0.2.7", "other.example"}, {vfServerName, "192.0.2.8"}}
+	vfBubbles(t, len(names), func(t *testing.T, i int) { vfC03ResumeOtherName(t, res, names[i][0], names[i][1]) })
 	res.Exhaustive = true
 	res.Floor("rejected_as_required", 40)
 	res.Floor("accepted_as_required", 30)
